@@ -100,6 +100,8 @@ def run_stamp(case):
                 disagree += 1
     if disagree:
         classes.add("stamp order overrides arrival order")
+    if case["rate"] >= 2 ** 30:
+        classes.add("stamps closer than a nanosecond")
     if any(a for a in case.get("ages", [])):
         classes.add("creation time differs from arrival time")
     fn, m = schedlab.f2c_fn(case)
@@ -177,7 +179,15 @@ def strategy_for(kind):
                 "kind": "WFQ", "exact": True, "static": False, "rate": 8192, "table": [[f, 1] for f in range(n)], "f2c": None,
                 "wl": [[0, 0, 2048, None, 0]] + sorted([[k / 128, f, sz, None, 0] for k, f, sz in xs], key=lambda w: w[0]),
                 "ages": [0] + [w * 4 for w in range(1, len(xs) + 1)]})
-        return kgen.weighted([(general, 6), (st.integers(2, 4).flatmap(ties), 1)])
+        def fast(n):
+            """a very fast link: stamps of packets a byte apart differ by 2**-33 s and less - far below any decimal rounding, yet
+            exactly representable; everything is queued at t=0, larger stamps first as often as not"""
+            arr = st.lists(st.tuples(st.integers(0, n - 1), st.sampled_from([64, 65, 66, 67, 1500, 1501, 1502, 128])), min_size=5, max_size=16)
+            wts = st.lists(st.sampled_from([1, 2, 4, 0.5]), min_size=n, max_size=n)
+            return st.tuples(arr, wts).map(lambda t: {
+                "kind": "WFQ", "exact": True, "static": True, "rate": 8 * 2 ** 33, "table": [[f, t[1][f]] for f in range(n)], "f2c": None,
+                "wl": [[0, f, sz, None, 0] for f, sz in t[0]], "ages": [0]})
+        return kgen.weighted([(general, 6), (st.integers(2, 4).flatmap(ties), 1), (st.integers(2, 4).flatmap(fast), 1)])
     return strat
 
 
@@ -193,11 +203,12 @@ PROP = Property(
           "of arrival goes first; no exception on equal stamps; static WFQ backlog: |S_i/w_i - S_j/w_j| <= Lmax/w_i + Lmax/w_j "
           "after every exit while both classes still have packets. Non-trivial = >=2 distinct weights and >=1 service decision "
           "where stamp order and arrival order disagree."),
-    facets=[Facet("WFQ", strategy_for("WFQ"), run_stamp, quick=900, thorough=6000,
+    facets=[Facet("WFQ", strategy_for("WFQ"), run_stamp, quick=1500, thorough=6000,
                   essential=["stamp order overrides arrival order", "equal stamps", "idle period resets virtual time",
                              "static backlog fairness checked", "many-to-one flow2class",
-                             "equal stamps, different arrival instants", "creation time differs from arrival time"]),
-            Facet("VC", strategy_for("VC"), run_stamp, quick=700, thorough=5000,
+                             "equal stamps, different arrival instants", "creation time differs from arrival time",
+                             "stamps closer than a nanosecond"]),
+            Facet("VC", strategy_for("VC"), run_stamp, quick=900, thorough=5000,
                   essential=["stamp order overrides arrival order", "equal stamps", "many-to-one flow2class"])],
     assumptions=["a class is backlogged while it has packets waiting or in transmission",
                  "same-instant arrivals observed after the previous exit are not counted as waiting (set-valued decisions)"],
